@@ -1,5 +1,6 @@
 (* Extraction of the C17 options model for the correspondence run. *)
 From Coq Require Import Extraction ExtrOcamlBasic ZArith List.
-From ScV Require Import Base.CInt C17.OptionsModel C17.GetoptModel C17.OptionsProofs.
+From ScV Require Import Base.CInt C17.OptionsModel C17.GetoptModel C17.OptionsProofs C17.DictModel.
 Extraction "c17_model.ml" step empty_world get_opts strtol st_get ini_load ini_line print_dec
-  getopt_calls g_reset g_start shorts_of longs_of parse_argv roundtrip_ok_b.
+  getopt_calls g_reset g_start shorts_of longs_of parse_argv roundtrip_ok_b
+  adict_new adict_set adict_get adict_unset dictionary_hash.
